@@ -42,6 +42,58 @@ pub struct SeedEnc {
 	/// the unmutated seed must decode (and, where set, pass its stateless checks) on chain type "auto"
 	pub expect_ok: bool,
 	pub expect_post: bool,
+	/// 0-based field indices of a segment identifier (height u8, idx u64) inside this encoding
+	pub ident: Option<(usize, usize)>,
+	/// 0-based field index of the hash count of a segment proof inside this encoding
+	pub proof: Option<usize>,
+}
+
+/// the identifier is the first (u8, u64) field pair after the frame header (codec) / the leading block hash (responses)
+fn find_ident(s: &SeedEnc) -> Option<(usize, usize)> {
+	let t = s.target;
+	let start = if t == "Codec::read" {
+		if !s.label.contains("seg") {
+			return None;
+		}
+		4
+	} else if t.contains("Segment") {
+		0
+	} else {
+		return None;
+	};
+	(start..s.fields.len().saturating_sub(1))
+		.find(|&i| s.fields[i].kind == "u8" && s.fields[i + 1].kind == "u64")
+		.map(|i| (i, i + 1))
+}
+
+/// the segment proof is the last item of a segment (responses append one more hash): a u64 count followed by that many
+/// 32-byte hashes
+fn find_proof(s: &SeedEnc) -> Option<usize> {
+	let t = s.target;
+	let is_seg = (t.contains("Segment") && !t.contains("SegmentRequest") && !t.contains("SegmentIdentifier"))
+		|| (t == "Codec::read" && s.label.contains("seg") && !s.label.starts_with("get"));
+	if !is_seg {
+		return None;
+	}
+	let n = s.fields.len();
+	let r = s.fields.iter().rev().take_while(|f| f.kind == "b" && f.w == 32).count();
+	if r >= n {
+		return None;
+	}
+	let j = n - 1 - r;
+	let f = &s.fields[j];
+	if f.kind != "u64" {
+		return None;
+	}
+	let mut b = [0u8; 8];
+	b.copy_from_slice(&s.bytes[f.off..f.off + 8]);
+	let v = u64::from_be_bytes(b) as usize;
+	let trailing_root = t.starts_with("Output") || (t == "Codec::read" && (s.label == "outseg" || s.label == "bitmapseg"));
+	if (trailing_root && v + 1 == r) || (!trailing_root && v == r) {
+		Some(j)
+	} else {
+		None
+	}
 }
 
 pub struct Gen {
@@ -181,6 +233,8 @@ impl Gen {
 					ctx: ctx.clone(),
 					expect_ok: self.auto,
 					expect_post: self.auto && post,
+					ident: None,
+					proof: None,
 				});
 			}
 		}
@@ -358,7 +412,10 @@ pub fn build(seed: u64, auto: bool) -> Vec<SeedEnc> {
 		}
 	}
 	// (bits, density per mille, segment height, segment idx): sparse -> index list, dense -> negative list, middle -> raw
-	for (nbits, dens, h, idx) in [(3000u64, 20u64, 2u8, 0u64), (70_000, 500, 6, 1), (200_000, 995, 7, 0), (9000, 960, 3, 1)].iter() {
+	// (the two small ones: exactly the 2^height chunks of a full height-1 segment, and a single-chunk height-0 segment)
+	for (nbits, dens, h, idx) in
+		[(3000u64, 20u64, 2u8, 0u64), (70_000, 500, 6, 1), (200_000, 995, 7, 0), (9000, 960, 3, 1), (5000, 300, 1, 1), (5000, 200, 0, 3)].iter()
+	{
 		let mut acc = BitmapAccumulator::new();
 		let set: Vec<u64> = (0..*nbits).filter(|i| g.rng.gen_range(0, 1000) < *dens || i % 1024 == 0).collect();
 		acc.init(set, *nbits).expect("accumulator");
@@ -466,6 +523,8 @@ pub fn build(seed: u64, auto: bool) -> Vec<SeedEnc> {
 			ctx: None,
 			expect_ok: true,
 			expect_post: false,
+			ident: None,
+			proof: None,
 		});
 	}
 	// ---- API strings
@@ -491,6 +550,38 @@ pub fn build(seed: u64, auto: bool) -> Vec<SeedEnc> {
 			ctx: None,
 			expect_ok: true,
 			expect_post: false,
+			ident: None,
+			proof: None,
+		});
+	}
+	// hex arguments of the API handlers: a commitment, a hash, a transaction (pool push, protocol version 1)
+	let api_tx = g.tx(2, 1, 2);
+	let api_tx_hex = encode(&api_tx, 1).map(|(b, f)| (crate::worker::hex(&b), f));
+	let commit_hex = crate::worker::hex(&g.commit().0);
+	let hash_hex = g.hash().to_hex();
+	let mut strs: Vec<(&'static str, &str, String, Vec<Field>, bool)> = vec![
+		("util::from_hex", "commit", commit_hex.clone(), vec![Field { off: 0, w: 2, kind: "b" }, Field { off: 2, w: 64, kind: "b" }], true),
+		("util::from_hex", "hash", hash_hex.clone(), vec![Field { off: 0, w: 32, kind: "b" }, Field { off: 32, w: 32, kind: "b" }], true),
+		("Hash::from_hex", "hash", hash_hex, vec![Field { off: 0, w: 32, kind: "b" }, Field { off: 32, w: 32, kind: "b" }], true),
+	];
+	if let Some((h, f)) = api_tx_hex {
+		// the binary field map, in hex digits
+		let hf: Vec<Field> = f.iter().map(|x| Field { off: 2 * x.off, w: 2 * x.w, kind: "b" }).collect();
+		strs.push(("api::push_tx_hex", "tx", h, hf, true));
+	}
+	for (t, l, text, fields, ok) in strs {
+		g.out.push(SeedEnc {
+			target: t,
+			label: l.into(),
+			ver: 1000,
+			bytes: text.into_bytes(),
+			fields,
+			aux: 0,
+			ctx: None,
+			expect_ok: ok,
+			expect_post: false,
+			ident: None,
+			proof: None,
 		});
 	}
 	// ---- frames for the codec: one per message type, then streams
@@ -504,6 +595,8 @@ pub fn build(seed: u64, auto: bool) -> Vec<SeedEnc> {
 	let seg_rp = g.out.iter().find(|s| s.target == "SegmentResponse<RangeProof>::read").cloned();
 	let seg_k = g.out.iter().find(|s| s.target == "SegmentResponse<TxKernel>::read").cloned();
 	let mut frames: Vec<(String, Vec<u8>, Vec<Field>)> = vec![];
+	// check parameters (MMR size, expected roots) of the segment frames: those of the body's own seed
+	let mut frame_env: Vec<(String, u64, Option<Vec<u8>>)> = vec![];
 	macro_rules! fr {
 		($l:expr, $ty:expr, $b:expr) => {
 			for v in [1u32, 3].iter() {
@@ -562,6 +655,7 @@ pub fn build(seed: u64, auto: bool) -> Vec<SeedEnc> {
 					hf.push(Field { off: f.off + off, w: f.w, kind: f.kind });
 				}
 				frames.push((l.to_string(), hb, hf));
+				frame_env.push((l.to_string(), s.aux, s.ctx.clone()));
 			}
 		}
 	}
@@ -601,6 +695,15 @@ pub fn build(seed: u64, auto: bool) -> Vec<SeedEnc> {
 	for (l, b, f) in frames {
 		let ver = if l.ends_with("v3") { 3 } else { 1 };
 		push_frame(&mut g, "Codec::read", &l, b, f, ver);
+		if let Some((_, aux, ctx)) = frame_env.iter().find(|x| x.0 == l) {
+			let last = g.out.last_mut().expect("frame");
+			last.aux = *aux;
+			last.ctx = ctx.clone();
+		}
+	}
+	for s in g.out.iter_mut() {
+		s.ident = find_ident(s);
+		s.proof = find_proof(s);
 	}
 	g.out
 }
@@ -617,5 +720,7 @@ fn push_frame(g: &mut Gen, target: &'static str, label: &str, bytes: Vec<u8>, fi
 		ctx: None,
 		expect_ok: auto && label != "hand" && label != "error" && !label.starts_with("handv") && !label.starts_with("errorv"),
 		expect_post: false,
+		ident: None,
+		proof: None,
 	});
 }
